@@ -184,6 +184,13 @@ def flagsLe : List Flags → List Flags → Bool
   | a :: as, b :: bs => a.le b && flagsLe as bs
   | _, _ => false
 
+/-- the assignments obtained from `fl` by raising exactly one `false` flag of one parameter to `true` -/
+def raiseOne : List Flags → List (List Flags)
+  | [] => []
+  | (a, b) :: rest =>
+    (if a then [] else [(true, b) :: rest]) ++ (if b then [] else [(a, true) :: rest]) ++
+      (raiseOne rest).map fun r => (a, b) :: r
+
 /-- `some false ≤ some true`; an undecided verdict is below / above nothing -/
 def verdictLe : Option Bool → Option Bool → Bool
   | some a, some b => !a || b
